@@ -1,0 +1,76 @@
+//! Read-only introspection hooks for the external model-based verification harness.
+//!
+//! Everything here is compiled only with `--cfg griddle_verif`.
+
+use crate::{HashMap, HashSet};
+
+/// A snapshot of the structural state of a map: both backing tables and the cached
+/// position used to move elements out of the old one.
+#[derive(Debug, Clone, Copy, PartialEq, Eq)]
+pub struct VerifState {
+    /// The incremental-resize quota `R` the crate was compiled with.
+    pub r: usize,
+    /// Number of elements in the main table.
+    pub main_len: usize,
+    /// `capacity()` of the main table.
+    pub main_cap: usize,
+    /// Number of buckets of the main table.
+    pub main_buckets: usize,
+    /// Whether an old table is present.
+    pub split: bool,
+    /// Number of elements in the old table (0 if none).
+    pub old_len: usize,
+    /// `capacity()` of the old table (0 if none).
+    pub old_cap: usize,
+    /// Number of buckets of the old table (0 if none).
+    pub old_buckets: usize,
+    /// Number of elements the cached old-table iterator still expects to yield (0 if none).
+    pub cursor_len: usize,
+}
+
+impl<K, V, S> HashMap<K, V, S> {
+    /// Returns a snapshot of the structural state of the map.
+    pub fn verif_state(&self) -> VerifState {
+        let (main_len, main_cap, main_buckets) = self.table.verif_main();
+        let old = self.table.verif_old();
+        let (old_len, old_cap, old_buckets, cursor_len) = old.unwrap_or((0, 0, 0, 0));
+        VerifState {
+            r: crate::raw::RawTable::<(K, V)>::verif_r(),
+            main_len,
+            main_cap,
+            main_buckets,
+            split: old.is_some(),
+            old_len,
+            old_cap,
+            old_buckets,
+            cursor_len,
+        }
+    }
+
+    /// Calls `f(key, value, in_main)` for every element, using a fresh iterator over each table.
+    pub fn verif_for_each(&self, mut f: impl FnMut(&K, &V, bool)) {
+        self.table.verif_for_each(|(k, v), m| f(k, v, m));
+    }
+
+    /// Calls `f(key, value)` for every element the cached old-table iterator would still yield.
+    pub fn verif_cursor_for_each(&self, mut f: impl FnMut(&K, &V)) {
+        self.table.verif_cursor_for_each(|(k, v)| f(k, v));
+    }
+}
+
+impl<T, S> HashSet<T, S> {
+    /// Returns a snapshot of the structural state of the set.
+    pub fn verif_state(&self) -> VerifState {
+        self.map.verif_state()
+    }
+
+    /// Calls `f(element, in_main)` for every element, using a fresh iterator over each table.
+    pub fn verif_for_each(&self, mut f: impl FnMut(&T, bool)) {
+        self.map.verif_for_each(|k, _, m| f(k, m));
+    }
+
+    /// Calls `f(element)` for every element the cached old-table iterator would still yield.
+    pub fn verif_cursor_for_each(&self, mut f: impl FnMut(&T)) {
+        self.map.verif_cursor_for_each(|k, _| f(k));
+    }
+}
